@@ -206,12 +206,18 @@ def btcdeb_cmd(draw):
 INLINE_FUNS = ['echo', 'hex', 'int', 'reverse', 'sha256', 'ripemd160', 'hash256', 'hash160', 'base58chkenc', 'base58chkdec', 'bech32enc', 'bech32dec', 'verify_sig', 'combine_pubkeys', 'tweak_pubkey',
                'pubkey_to_xpubkey', 'addr_to_spk', 'spk_to_addr', 'add', 'sub', 'jacobi', 'tagged_hash', 'taproot_tweak_pubkey', 'prefix_compact_size', 'nosuchfun', 'len', 'bech32menc']
 INLINE_ARGS = ['', '0', '1', '-1', '17', '0x', '0x00', '0x80', '0x0000000080', '0xffffffffff', '0x' + '00' * 32, '0x' + 'ff' * 32, '0x' + '01' * 33, '0x02' + '11' * 32, '0x' + 'ab' * 64, '0x' + 'ab' * 65,
-               '99999999999999999999', '-9223372036854775808', 'abc', 'bc1qw508d6qejxtdg4y5r3zarvary0c5xw7kv8f3t4', '1PqhyaTFgaHeYVmi5qBV9AjjeiyiTV1hpx', '0x5120' + '22' * 32, '0x0014' + '33' * 20, 'TapLeaf']
+               '99999999999999999999', '-9223372036854775808', 'abc', 'bc1qw508d6qejxtdg4y5r3zarvary0c5xw7kv8f3t4', '1PqhyaTFgaHeYVmi5qBV9AjjeiyiTV1hpx', '0x5120' + '22' * 32, '0x0014' + '33' * 20, 'TapLeaf',
+               # valid bech32 / bech32m strings with an EMPTY data part (BIP173 / BIP350 test vectors), one-symbol data parts
+               'a12uel5l', 'A12UEL5L', 'a1lqfn3a', 'A1LQFN3A', 'abcdef1qpzry9x8gf2tvdw0s3jn54khce6mua7lmqqqxw', '?1ezyfcl', 'bc1gmk9yu']
 
 
 @st.composite
 def inline_expr(draw, depth=1):
     """fn(arg) / fn([a b]) / fn(fn(arg)) expressions: the inline function syntax every tool accepts wherever a value is read"""
+    if draw(st.integers(0, 7)) == 0:
+        # decoders on strings that are VALID for the codec but degenerate for the transform (empty data part, one symbol, the longest string)
+        return '%s(%s)' % (draw(st.sampled_from(['bech32dec', 'bech32dec', 'base58chkdec', 'addr_to_spk'])),
+                           draw(st.sampled_from(['a12uel5l', 'A12UEL5L', 'a1lqfn3a', 'A1LQFN3A', '?1ezyfcl', 'bc1gmk9yu', 'abcdef1qpzry9x8gf2tvdw0s3jn54khce6mua7lmqqqxw', '1', '11', '3QJmnh', '1111111111'])))
     f = draw(st.one_of(st.sampled_from(INLINE_FUNS), st.sampled_from(['int', 'int', 'jacobi', 'jacobi', 'add', 'sub', 'hex', 'bech32dec', 'base58chkdec', 'spk_to_addr', 'verify_sig', 'verify_sig', 'pubkey_to_xpubkey', 'tweak_pubkey'])))
     if f == 'jacobi' and draw(st.booleans()):
         # jacobi([n k]): both 32-byte values; k = 0, 1, 2 (even), n = 0, n = k
